@@ -353,6 +353,15 @@ int main(int argc, char** argv) {
               for (auto* q : {&q1, &q2, &q3}) { reported += e.buffer_qr(*q); M.buffer_qr(*q, nullptr); }
               reported += e.buffer_aec(P.aec[1]); M.buffer_aec(P.aec[1], nullptr); reported += e.buffer_mm(P.mm[0]); M.buffer_mm(P.mm[0], nullptr);
               reported += e.write_block(); M.write_block(); }
+            if (kind == 2) { // the same content, but the output is closed by a rotation (and a second output follows): every residue of the output size mod 2048
+                outs.clear(); model::Exporter M2({model::from(bp)}); size_t rep2 = 0;
+                { CdnsExporter e(fp, MemSink{&outs}, CborOutputCompression::NO_COMPRESSION); GenericQueryResponse q1 = P.qr[1]; q1.asn = nonperiodic(pad, 8); rep2 += e.buffer_qr(q1); M2.buffer_qr(q1, nullptr);
+                  rep2 += e.rotate_output(MemSink{&outs}, true); M2.rotate(true); e.buffer_mm(P.mm[1]); M2.buffer_mm(P.mm[1], nullptr); e.write_block(); M2.write_block(); }
+                R.count("traces"); R.count("nontrivial");
+                for (size_t oi = 0; oi < 2; oi++) { std::string ex2 = "P{" + M2.outs[oi].preamble + "}"; for (auto& b : M2.outs[oi].blocks) ex2 += "|B{" + b.dump() + "}"; ex2 += "|eof"; std::string got; try { got = lib::file_dump(ref::read_file(outs.at(oi))); } catch (std::exception& e) { got = std::string("INVALID: ") + e.what(); }
+                    if (got != ex2) R.violation(std::string("align|rotation|") + (got.rfind("INVALID", 0) == 0 ? "incomplete-output" : "content"), "padding " + std::to_string(pad) + ": output " + std::to_string(oi) + " (" + std::to_string(outs[oi].size()) + " bytes) closed by " + (oi ? "destruction" : "rotation") + " is not the complete expected file: " + got.substr(0, 100), rep); }
+                if (outs.at(0).size() != rep2) R.violation("align|rotation|byte-count", "padding " + std::to_string(pad) + ": reported " + std::to_string(rep2) + " bytes, rotated output has " + std::to_string(outs[0].size()), rep);
+                R.outcome("kind2:fill" + std::to_string(outs[0].size() % 2048 == 0 ? 0 : 1)); return; }
             reported += 1; const std::string& bytes = outs.at(0); R.count("traces"); R.count("nontrivial");
             std::string expect = "P{" + M.outs[0].preamble + "}"; for (auto& b : M.outs[0].blocks) expect += "|B{" + b.dump() + "}"; expect += "|eof";
             if (bytes.size() != reported) R.violation("align|byte-count", "padding " + std::to_string(pad) + ": calls reported " + std::to_string(reported) + " bytes, output has " + std::to_string(bytes.size()), rep);
@@ -366,8 +375,8 @@ int main(int argc, char** argv) {
         if (!a.replay.empty()) { std::string s = slurp(a.replay); int k; unsigned long pd; if (sscanf(s.c_str(), "kind=%d;pad=%lu", &k, &pd) != 2) return done(2);
             Pool rp(1, 60); rp.run(1, [&](uint64_t, Result& R) { run_pad(k, pd, R); }, [&](uint64_t, const std::string& d, Result& R) { R.violation("align|" + crash_key(d), d.substr(0, 1500), s); }, total); return done(total.viol.empty() ? 0 : 1); }
         size_t NP = T ? 4200 : 2101; Pool pool(a.jobs, 120);
-        pool.run(2 * ((NP + 31) / 32) + 1, [&](uint64_t ti, Result& R) { if (ti == 2 * ((NP + 31) / 32)) { for (size_t pad : {(size_t)4095, (size_t)4096, (size_t)4097, (size_t)6000, (size_t)8192, (size_t)20000, (size_t)70000}) for (int k = 0; k < 2; k++) run_pad(k, pad, R); return; }
-            int kind = ti & 1; size_t lo = (ti / 2) * 32; for (size_t pad = lo; pad < std::min(NP, lo + 32); pad++) run_pad(kind, pad, R); if (ti % 23 == 0) R.sample("kind=" + std::to_string(kind) + ";pad=" + std::to_string(lo) + ".." + std::to_string(lo + 31)); },
+        pool.run(3 * ((NP + 31) / 32) + 1, [&](uint64_t ti, Result& R) { if (ti == 3 * ((NP + 31) / 32)) { for (size_t pad : {(size_t)4095, (size_t)4096, (size_t)4097, (size_t)6000, (size_t)8192, (size_t)20000, (size_t)70000}) for (int k = 0; k < 3; k++) run_pad(k, pad, R); return; }
+            int kind = ti % 3; size_t lo = (ti / 3) * 32; for (size_t pad = lo; pad < std::min(NP, lo + 32); pad++) run_pad(kind, pad, R); if (ti % 23 == 0) R.sample("kind=" + std::to_string(kind) + ";pad=" + std::to_string(lo) + ".." + std::to_string(lo + 31)); },
                  [&](uint64_t, const std::string& d, Result& R) { R.violation("align|" + crash_key(d), d.substr(0, 1500), pool.last_note); }, total);
         total.n["evaluations"] = total.n["traces"];
         return done(0);
